@@ -409,9 +409,17 @@ func (p *partition) Subscribe(ctx context.Context, req *client.SubscribeRequest)
 		return nil, st
 	}
 
-	if stopOffset != waitForNewMessages && stopOffset < startOffset {
+	if stopOffset != waitForNewMessages && !req.Reverse && stopOffset < startOffset {
 		return nil, status.New(
 			codes.InvalidArgument, fmt.Sprintf("Stop offset is before start offset: %d < %d",
+				stopOffset, startOffset))
+	}
+
+	// A reverse subscription reads backwards from the start offset down to the
+	// stop offset.
+	if stopOffset != waitForNewMessages && req.Reverse && stopOffset > startOffset {
+		return nil, status.New(
+			codes.InvalidArgument, fmt.Sprintf("Stop offset is after start offset: %d > %d",
 				stopOffset, startOffset))
 	}
 
@@ -506,7 +514,8 @@ func (p *partition) newSubscribeLoop(ctx context.Context, groupID, consumerID st
 			}
 			// The stop offset itself may no longer be in the log, e.g. if it
 			// was removed by compaction, so also stop once we are past it.
-			if stopOffset != waitForNewMessages && !reverse && offset > stopOffset {
+			if stopOffset != waitForNewMessages &&
+				((!reverse && offset > stopOffset) || (reverse && offset < stopOffset)) {
 				s := status.New(codes.ResourceExhausted, "Stop offset reached")
 
 				select {
@@ -617,7 +626,9 @@ func (p *partition) getStopOffset(req *client.SubscribeRequest) (int64, *status.
 	switch req.StopPosition {
 	case client.StopPosition_STOP_ON_CANCEL:
 		stopOffset = waitForNewMessages
-		if p.log.IsReadonly() {
+		// A readonly partition ends at the end of the log. A reverse
+		// subscription reads to the beginning of the log instead.
+		if p.log.IsReadonly() && !req.Reverse {
 			stopOffset = p.log.NewestOffset()
 		}
 	case client.StopPosition_STOP_OFFSET:
